@@ -196,10 +196,7 @@ def check_value_flow(prog, rep, fi, loop):
     nt = prog.func("main.py", "non_trivial")
     call = next((c for c in ast.walk(nt.node) if isinstance(c, ast.Call) and U(c.func).endswith(".apply_pka_values")), None)
     w = f"pdb2pqr/main.py:{call.lineno} (non_trivial)"
-    r5.add("ph-argument", U(call.args[1]) == "args.ph", f"pH argument is {U(call.args[1])}", w)
-    tab = call.args[2]
-    r5.add("pka-value", isinstance(tab, ast.DictComp) and U(tab.value) == "row['pKa']", f"pKa table values are {U(tab.value) if isinstance(tab, ast.DictComp) else '?'}", w)
-    r5.add("ff-argument", U(call.args[0]) == "forcefield_.name", f"force-field argument is {U(call.args[0])}", w)
+    # (pH, pKa and force-field arguments: decided on model rows by R4 producer|values-unmodified)
     ffn = prog.func("forcefield.py", "Forcefield.__init__").node
     r5.add("ff-name", "self.name = str(ff_name)" in U(ffn), "Forcefield.name is the (lower-cased) force-field option", "pdb2pqr/forcefield.py (Forcefield.__init__)")
     ta = prog.func("main.py", "transform_arguments").node
@@ -211,7 +208,8 @@ def check_value_flow(prog, rep, fi, loop):
                any(U(t) in ("ph", "force_field") for t in (s.targets if isinstance(s, ast.Assign) else [s.target]))]
     r5.add("parameters-unmodified", not rebound, f"ph/force_field re-bound: {rebound or 'never'}", w2)
     vals = sorted({U(s.value) for s in ast.walk(loop) if isinstance(s, ast.Assign) and U(s.targets[0]) == "value"})
-    r5.add("value-from-table", vals == ["pkadic[key]"], f"the compared value is bound from {vals}", w2)
+    r5.add("value-from-table", bool(vals) and all(v in ("pkadic[key]", "pkadic.pop(key)", "pkadic.get(key)") for v in vals),
+           f"the compared value is bound from {vals}", w2)
     cmps = sorted({U(n) for n in ast.walk(loop) if isinstance(n, ast.Compare) and "ph" in [x.id for x in ast.walk(n) if isinstance(x, ast.Name)]})
     r5.add("comparisons", all(c in ("ph < value", "ph >= value", "ph <= value", "ph > value", "not ph < value", "not ph >= value") for c in cmps) and bool(cmps),
            f"pH/pKa comparisons: {cmps} (both operands bare)", w2)
@@ -236,23 +234,58 @@ def check_keys(prog, model, loop, r4):
     chains = ["A", ""]
     # rows PROPKA can hand over: side-chain groups labelled by residue name, termini labelled N+/C-
     produced = set()
+    # the producer: the block of non_trivial that runs PROPKA and hands the table on is evaluated once per model row, whatever way
+    # the table is built (comprehension, loop, helper)
+    from ..guards import Flow, Obj
     from ..objinterp import ObjRunner
-    menv = ObjRunner(prog, "main.py").module_env("main.py")  # constants visible in main.py (its own and imported ones)
-    if isinstance(table, ast.DictComp) and len(table.generators) == 1:
-        gen = table.generators[0]
-        rowname = U(gen.target)
-        for R in AMINO:
-            for num in resnums:
-                for ch in chains:
-                    for label in (f"{R:<3}{num:>4} {ch}", f"N+ {num:>4} {ch}", f"C- {num:>4} {ch}"):
-                        row = {"res_name": R, "res_num": num, "chain_id": ch, "group_label": label, "pKa": 4.2,
-                               "ins_code": " ", "group_type": None}
-                        it = Interp({**menv, rowname: row})
-                        if all(it.truth(it.ev(c), c) for c in gen.ifs):
-                            produced.add((it.ev(table.key), "side-chain" if label[:2] not in ("N+", "C-") else label[:2]))
-    else:
-        raise AnalysisError("non_trivial: the pKa table handed to apply_pka_values is not a dict comprehension "
-                            "(producer left the analysable subset)")
+    blk = None
+    for st in ast.walk(nt.node):
+        if isinstance(st, ast.If) and any(c is producer for s_ in st.body for c in ast.walk(s_)) and \
+                any(isinstance(c, ast.Call) and U(c.func).endswith("run_propka") for s_ in st.body for c in ast.walk(s_)):
+            blk = st
+    if blk is None:
+        raise AnalysisError("non_trivial: the block that runs PROPKA and calls apply_pka_values was not found")
+    PKA = Obj({"__class__": "float-model", "__id__": "pKa"})
+    PH = Obj({"__class__": "float-model", "__id__": "pH"})
+    handed = {"value_ok": True, "ph_ok": True, "ff_ok": True, "n": 0}
+    for R in AMINO:
+        for num in resnums:
+            for ch in chains:
+                for label in (f"{R:<3}{num:>4} {ch}", f"N+ {num:>4} {ch}", f"C- {num:>4} {ch}"):
+                    row = {"res_name": R, "res_num": num, "chain_id": ch, "group_label": label, "pKa": PKA, "ins_code": " ", "group_type": None}
+                    got = []
+
+                    def extra(runner, interp, call, args, kw, got=got, row=row):
+                        nm = U(call.func)
+                        if nm.endswith("run_propka"):
+                            return [[row], "table"]
+                        if nm.endswith(".apply_pka_values"):
+                            got.append(args)
+                            return None
+                        if nm.startswith("biomolecule.") or nm.startswith("pformat") or nm.startswith("pprint."):
+                            return None
+                        return NotImplemented
+
+                    run = ObjRunner(prog, "main.py", extra_hook=extra)
+                    env = {"args": Obj({"__class__": "Namespace", "ph": PH, "pka_method": "propka"}), "biomolecule": Obj({"__class__": "Biomolecule"}),
+                           "forcefield_": Obj({"__class__": "Forcefield", "name": "parse"})}
+                    try:
+                        run.run_block(nt, blk.body, env)
+                    except Flow as fl:
+                        raise AnalysisError(f"non_trivial: the PROPKA block stops with {fl.value} on a model row") from None
+                    if len(got) != 1 or len(got[0]) < 3 or not isinstance(got[0][2], dict):
+                        raise AnalysisError("non_trivial: apply_pka_values was not called once with a dictionary on the model row")
+                    handed["n"] += 1
+                    handed["ph_ok"] &= got[0][1] is PH
+                    handed["ff_ok"] &= got[0][0] == "parse"
+                    for k_, v_ in got[0][2].items():
+                        handed["value_ok"] &= v_ is PKA
+                        produced.add((k_, "side-chain" if label[:2] not in ("N+", "C-") else label[:2]))
+    r4.info["producer_rows_evaluated"] = handed["n"]
+    r4.add("producer|values-unmodified", handed["value_ok"] and handed["ph_ok"] and handed["ff_ok"],
+           f"on {handed['n']} model rows the table values are the rows' pKa objects themselves, the pH argument is args.ph and the force-field "
+           f"argument is forcefield_.name (pKa {handed['value_ok']}, pH {handed['ph_ok']}, force field {handed['ff_ok']})",
+           f"pdb2pqr/main.py:{producer.lineno} (non_trivial)")
     produced_keys = {k for k, _ in produced}
     kinds = {}
     for k, kind in produced:
@@ -267,7 +300,7 @@ def check_keys(prog, model, loop, r4):
     templates = []
     for st in ast.walk(loop):
         if isinstance(st, ast.Assign) and len(st.targets) == 1 and U(st.targets[0]) == "key" \
-                and isinstance(st.value, ast.JoinedStr):
+                and any(isinstance(x, ast.JoinedStr) for x in ast.walk(st.value)):
             templates.append(st)
     if len(templates) < 1:
         raise AnalysisError("apply_pka_values: no f-string key templates found")
@@ -280,7 +313,6 @@ def check_keys(prog, model, loop, r4):
                     k = it.ev(st.value).strip()
                     if k in produced_keys:
                         hits += 1
-        lit = "".join(v.value for v in st.value.values if isinstance(v, ast.Constant)).strip() or "side-chain"
         tkey = "keytemplate|" + ("N+" if U(st.value).find("N+") >= 0 else "C-" if U(st.value).find("C-") >= 0 else "sidechain")
         r4.add(tkey, hits > 0,
                f"consumer key template {U(st.value)} matches {hits} producible key(s); the producer keeps only rows "
